@@ -78,12 +78,13 @@ func staleWindow(enc string) bool {
 	return false
 }
 
-// nextStore: can the image take the next block? A sequencer on one copy builds it (Finalise), a
-// follower on another copy stores it (SanityCheckNewHeight + Store).
-func (w *world) nextStore(img db.KeyValueStore) error {
+// nextStore: can the recovered process take the next block? A sequencer on a copy of the image builds
+// it (Finalise); the fresh process that was just opened on the image stores it (SanityCheckNewHeight +
+// Store). The image is a private copy and is discarded afterwards.
+func (w *world) nextStore(img db.KeyValueStore, fresh *chain.Node) error {
 	a := w.copyImage(img)
 	defer closeIfPebble(a)
-	sq := chain.NewNode(a, w.seq.NewState, w.opts()...)
+	sq := chain.NewNode(a, w.seq.NewState, w.seqOpts()...)
 	saveV, saveC := map[uint64]uint64{}, w.classCtr
 	for k, v := range w.versions {
 		saveV[k] = v
@@ -91,17 +92,14 @@ func (w *world) nextStore(img db.KeyValueStore) error {
 	bi, err := w.build(sq, 2, 4)
 	w.versions, w.classCtr = saveV, saveC+1
 	if err != nil {
-		return fmt.Errorf("sequencer Finalise: %w", err)
+		return fmt.Errorf("sequencer Finalise on the image: %w", err)
 	}
 	delete(w.reg, bi.id)
 	w.byNum[bi.num] = w.byNum[bi.num][:len(w.byNum[bi.num])-1]
-	b := w.copyImage(img)
-	defer closeIfPebble(b)
-	fl := chain.NewNode(b, w.seq.NewState, w.opts()...)
-	if err := fl.Store(bi.built); err != nil {
+	if err := fresh.Store(bi.built); err != nil {
 		return fmt.Errorf("follower Store: %w", err)
 	}
-	if h, err := fl.BC.Height(); err != nil || h != bi.num {
+	if h, err := fresh.BC.Height(); err != nil || h != bi.num {
 		return fmt.Errorf("height after store is %d/%v, want %d", h, err, bi.num)
 	}
 	return nil
@@ -180,16 +178,15 @@ func (w *world) checkCrashImage(seq *Seq, k, opIdx int, img db.KeyValueStore, wi
 		mflags = strings.Fields(mp[1])
 	}
 	consistent := ev[0] == "1" && len(notes) == 0
-	// observations on a fresh process (the next-store probe works on its own copies of the pristine image;
-	// the fresh process runs behind a counting proxy: its initialisation may write)
-	nsErr := w.nextStore(img)
+	// observations on a fresh process (behind a counting proxy: its initialisation may write), which finally
+	// stores the next block
 	probe := faultdb.New(img)
 	fresh := chain.NewNode(probe, seq.NewState, w.opts()...)
 	evOK, evWhat := eventsOK(fresh, img, w.lo)
-	initWrote := probe.Count() > 0
-	if initWrote {
+	if probe.Count() > 0 {
 		c.Hist["fresh-process-init-wrote-a-window"]++
 	}
+	nsErr := w.nextStore(img, fresh)
 	c.Count(fmt.Sprintf("crash/%s/%v/%v/%s", kind, seq.NewState, seq.Boundary, seq.Engine), opIdx >= 0)
 	c.Hist["crash-image-during:"+kind]++
 	what := fmt.Sprintf("crash after %d committed writes, during %s [%s, newState=%v]: ", k, during, seq.Engine, seq.NewState)
